@@ -25,6 +25,7 @@ func init() {
 			{ID: "C05.4", Desc: "codec pair: dump with body, parse with the inverse", Run: func(c *Ctx) { ruleCodecPair(c, "C05.4") }, MinSites: 2},
 			{ID: "C05.5", Desc: "header-write whitelist", Run: ruleC05_5, MinSites: 5},
 			{ID: "C05.6", Desc: "status applied after the entry was serialised", Run: ruleC05_6, MinSites: 1},
+			{ID: "C05.9", Desc: "fields named by a qualified no-cache are removed only from a response that is handed out unvalidated, never in front of validation or write-back", Run: ruleC05_9, MinSites: 1},
 			{ID: "C05.8", Desc: "a valid origin Date is forwarded and stored unchanged; only an invalid one is repaired", Run: func(c *Ctx) { ruleDateRepair(c, "C05.8") }, MinSites: 1},
 			{ID: "C05.7", Desc: "no field of an origin or stored response object is rewritten (only header entries, C05.5)", Run: ruleC05_7, MinSites: 1},
 		},
@@ -44,6 +45,11 @@ func ruleC05_1(c *Ctx) {
 			}
 		}
 	})
+	for _, g := range globalMapsLoadedIn(ht) {
+		for _, k := range globalMapLiteralKeys(g) {
+			have[k] = true
+		}
+	}
 	var missing []string
 	for _, h := range oracleHop {
 		if !have[http.CanonicalHeaderKey(h)] {
@@ -107,6 +113,41 @@ func ruleC05_1(c *Ctx) {
 				}
 			}
 		})
+	}
+	// ... for every response: no return of the strip function avoids the loop over the table (an early return for some
+	// protocol version or status leaves Proxy-Authenticate, Keep-Alive etc. in what is stored)
+	if sh != c.A.F("storeResp") {
+		pr := c.An.Prune(sh, nil)
+		r := c.An.MustPass(pr, nil, func(in ssa.Instruction) bool {
+			if rg, ok := in.(*ssa.Range); ok {
+				for _, root := range c.P.Roots(rg.X, TraceOpts{NoParams: true}) {
+					if call, ok := root.(*ssa.Call); ok && call.Call.StaticCallee() == ht {
+						return true
+					}
+				}
+				if call, ok := c.An.canon(rg.X).(*ssa.Call); ok && call.Call.StaticCallee() == ht {
+					return true
+				}
+			}
+			// maps.DeleteFunc(header, pred) and friends: a call that receives the header and deletes by predicate
+			if cc := callOf(in); cc != nil && len(cc.Args) == 2 && isHTTPHeader(cc.Args[0].Type()) {
+				if sc := cc.StaticCallee(); sc != nil {
+					n := sc.String()
+					if o := sc.Origin(); o != nil {
+						n = o.String()
+					}
+					if strings.HasPrefix(n, "maps.DeleteFunc") {
+						return true
+					}
+				}
+			}
+			return false
+		})
+		if r.OK {
+			c.Pass("C05.1", "strip-unconditional", "every return of the strip function has passed the deletion of the table's members", c.P.ShortName(sh))
+		} else {
+			c.Fail("C05.1", "strip-unconditional", "every return of the strip function has passed the deletion of the table's members", c.P.InstrPos(r.Missing[0])+": returns without stripping; e.g. skipping HTTP/2 responses stores and replays Proxy-Authenticate, Proxy-Authentication-Info and Keep-Alive, which are legal there")
+		}
 	}
 	if delOK {
 		c.Pass("C05.1", "strip-deletes", "the strip deletes each table member from the response header", c.P.ShortName(sh))
@@ -534,5 +575,47 @@ func ruleC05_7(c *Ctx) {
 	}
 	if bad == 0 {
 		c.Pass("C05.7", "response-fields-untouched", desc, fmt.Sprintf("%d functions reachable from RoundTrip scanned, 0 stores into *http.Response fields", scanned))
+	}
+}
+
+// ruleC05_9: the stripper of qualified no-cache fields edits the stored response object in place. That is right for a
+// response about to be returned unvalidated; in front of the validation handler (or of a write-back) it removes an
+// end-to-end field from what a 304 freshens, stores and returns. In every function on the exchange, no stripper
+// instruction can be followed by a call of the validation handler or of the storer.
+func ruleC05_9(c *Ctx) {
+	desc := "no qualified-no-cache strip precedes the validation handler or a store of the same exchange"
+	n := 0
+	bad := ""
+	var fns []*ssa.Function
+	for fn := range c.A.Reach {
+		fns = append(fns, fn)
+	}
+	sort.Slice(fns, func(i, j int) bool { return FuncName(fns[i]) < FuncName(fns[j]) })
+	for _, fn := range fns {
+		var strips, sinks []ssa.Instruction
+		instrsOf(fn, func(in ssa.Instruction) {
+			if c.An.IsStripFields(in) {
+				strips = append(strips, in)
+			}
+			if c.An.CallsRole(in, "validationHandler") || c.An.CallsRole(in, "storeResp") {
+				sinks = append(sinks, in)
+			}
+		})
+		n += len(strips)
+		for _, st := range strips {
+			for _, sk := range sinks {
+				if instrDominates(st, sk) || instrReaches(st, sk) {
+					bad = fmt.Sprintf("%s: the strip at %s can be followed by %s at %s", c.P.ShortName(fn), c.P.InstrPos(st), sk.String(), c.P.InstrPos(sk))
+				}
+			}
+		}
+	}
+	switch {
+	case n == 0:
+		c.Undecided("C05.9", "strip-not-before-validation", desc, "no stripper of qualified no-cache fields on the exchange")
+	case bad != "":
+		c.Fail("C05.9", "strip-not-before-validation", desc, bad+"; a 304-validated reuse of `no-cache=\"X-Token\"` then lacks X-Token, and the stored entry loses it for good")
+	default:
+		c.Pass("C05.9", "strip-not-before-validation", desc, fmt.Sprintf("%d strip sites, none in front of the validation handler or the storer", n))
 	}
 }
